@@ -25,12 +25,14 @@ class Req:
 
 class Rep:
     """reader over load(off, n) -> int | term"""
-    def __init__(s, load): s.load = load; s.o = 0
+    def __init__(s, load, uniq=None): s.load = load; s.o = 0; s.uniq = uniq
     def u32(s): v = s.load(s.o, 4); s.o += 4; return v
     def u64(s): v = s.load(s.o, 8); s.o += 8; return v
     def cu32(s):
         v = s.u32()
-        if is_sym(v): raise Unsupported('symbolic length/count in reply (shape must be concrete per path)')
+        if is_sym(v):
+            if s.uniq is None: raise Unsupported('symbolic length/count in reply')
+            v = s.uniq(v)
         return v
     def bytes(s):
         n = s.cu32(); r = [s.load(s.o + i, 1) for i in range(n)]; s.o += n; return r
@@ -103,7 +105,11 @@ def engine_call(E, req_bytes, outcap=OUTCAP, fn='@w_sess', extra_args=(), assume
     return out, fin
 
 def engine_reply(E, f, out, mode):
-    rp = Rep(lambda off, n: E.load(f, out + off, n))
+    def uniq(term):
+        vals = E.concretize(f, term, 'reply length', limit=2)
+        if len(vals) != 1: raise Unsupported('length/count in reply is not unique on this path (shape must be concrete per path)')
+        return vals[0]
+    rp = Rep(lambda off, n: E.load(f, out + off, n), uniq)
     return parse_reply(rp, mode)
 
 def native_call(lib, req_bytes, mode, outcap=OUTCAP):
